@@ -55,7 +55,7 @@ func candidateTexts(body []byte) []string {
 			var sb strings.Builder
 			n := 0
 			for _, e := range t {
-				if m, ok := e.(map[string]any); ok {
+				if m, ok := e.(map[string]any); ok && !nonAnswerPart(m) {
 					if s, ok := m["text"].(string); ok {
 						sb.WriteString(s)
 						n++
@@ -67,13 +67,36 @@ func candidateTexts(body []byte) []string {
 				out = append(out, sb.String())
 			}
 		case map[string]any:
-			for _, e := range t {
+			skipText := nonAnswerPart(t)
+			for k, e := range t {
+				if skipText && k == "text" {
+					continue
+				}
 				walk(e)
 			}
 		}
 	}
 	walk(v)
 	return out
+}
+
+// nonAnswerPart: a typed content part that carries "text" but whose declared type says it is
+// not the model's answer (a reasoning trace, a refusal, an echo of the input ...). The
+// provider's answer is made of output_text / text parts (or untyped strings); the text of
+// these other parts is not a candidate for it.
+func nonAnswerPart(m map[string]any) bool {
+	t, ok := m["type"].(string)
+	if !ok {
+		return false
+	}
+	if _, hasText := m["text"].(string); !hasText {
+		return false
+	}
+	switch t {
+	case "reasoning_text", "reasoning", "summary_text", "refusal", "input_text", "tool_call", "function_call_output":
+		return true
+	}
+	return false
 }
 
 // carries reports whether t, or any '{'..'}' substring of t, satisfies pred.
